@@ -99,4 +99,14 @@ theorem reachable_pool (c : Cfg) (s : State) (hr : TS.Reachable (step? c) (init 
   TS.invariant_reachable (step? c) (PoolInv c) (init c) (init_pool c)
     (fun s op s' => step_pool c s s' op) s hr
 
+theorem flatMap_evs_le (m : Nat) (l : List Batch) (h : ∀ b ∈ l, b.evs.length ≤ m) :
+    (l.flatMap (·.evs)).length ≤ l.length * m := by
+  induction l with
+  | nil => simp
+  | cons b bs ih =>
+    have h1 := h b (by simp)
+    have h2 := ih (fun x hx => h x (by simp [hx]))
+    simp only [List.flatMap_cons, List.length_append, List.length_cons, Nat.add_mul, Nat.one_mul]
+    omega
+
 end FileD.Batcher
